@@ -471,7 +471,9 @@ def bounded_refute(ob, timeout_s, K=2):
     s.add(z3.Not(goal))
     r = timed_check(s, timeout_s)
     if r == z3.sat:
-        return s.model()
+        # only a model that is consistent with CPython at its own strings counts
+        rr, m = refine_model(ob, s, timeout_s=min(5.0, timeout_s), formulas=pc + [goal])
+        return m if rr == "sat" else None
     return None
 
 
@@ -538,8 +540,11 @@ def _native_uf():
         "py_int_ok": (lambda s, b: int_ok(s, b) if 2 <= b <= 36 else None),
         "py_int_val": (lambda s, b: int(s, b) if 2 <= b <= 36 and int_ok(s, b) else None),
         "py_float_ok": lambda s: float_ok(s),
-        "py_lower": lambda s: s.lower() if ascii_only(s) else None,
-        "py_upper": lambda s: s.upper() if ascii_only(s) else None,
+        # ASCII: str and bytes agree; a code point above 255 can only be in a str; 128..255 alone is ambiguous
+        # (Latin-1 letters: str.lower() and bytes.lower() differ; taken as text -- such a fact only steers the search
+        #  for a counterexample, it is never used to close a proof: see `steering` in refine_model)
+        "py_lower": lambda s: s.lower(),
+        "py_upper": lambda s: s.upper(),
     }
 
 
@@ -560,14 +565,34 @@ def _collect_apps(formulas, names):
     return out
 
 
-def refine_model(ob, s, rounds=8, timeout_s=5.0):
+def _collect_decls(formulas, names):
+    out, seen, stack = {}, set(), list(formulas)
+    while stack:
+        x = stack.pop()
+        i = x.get_id()
+        if i in seen:
+            continue
+        seen.add(i)
+        if z3.is_quantifier(x):
+            stack.append(x.body())
+            continue
+        if z3.is_app(x):
+            if x.decl().name() in names and x.num_args() > 0:
+                out[x.decl().name()] = x.decl()
+            stack.extend(x.children())
+    return list(out.values())
+
+
+def refine_model(ob, s, rounds=8, timeout_s=5.0, formulas=None):
     """A model may give the abstract stdlib functions (int(), float(), lower() ...) values that CPython does not
     give them at the model's own strings.  Such a model is not a counterexample.  Add the true ground facts at those
     points and ask again (counterexample-guided refinement; every added fact is a fact about CPython).
     Returns ('sat', model) with a consistent model, ('unsat', None) if the facts close the goal, ('unknown', None)."""
     nat = _native_uf()
-    apps = _collect_apps(list(ob.pc) + [ob.goal], set(nat))
-    if not apps:
+    formulas = formulas if formulas is not None else list(ob.pc) + [ob.goal]
+    apps = _collect_apps(formulas, set(nat))
+    decls = _collect_decls(formulas, set(nat))
+    if not apps and not decls:
         return "sat", s.model()
     # general true facts first (they let the solver pick easy points): ASCII text without upper-case letters is its
     # own lower(), without lower-case letters its own upper()
@@ -591,6 +616,10 @@ def refine_model(ob, s, rounds=8, timeout_s=5.0):
                 return "unsat", None
             if r != z3.sat:
                 return "unknown", None
+    steering = [False]
+
+    def _ambiguous(name, py):
+        return name in ("py_lower", "py_upper") and any(128 <= ord(c) < 256 for c in py[0])
     for _ in range(rounds):
         m = s.model()
         facts = []
@@ -625,13 +654,50 @@ def refine_model(ob, s, rounds=8, timeout_s=5.0):
                 tv = z3.StringVal(real)
             if not ok:
                 facts.append(app.decl()(*args) == tv)
+                if _ambiguous(app.decl().name(), py):
+                    steering[0] = True
+        # applications under binders (quantified clauses over list elements): the points at which the model itself
+        # interprets the function
+        for d in decls:
+            fi = m.get_interp(d)
+            if fi is None or not hasattr(fi, "as_list"):
+                continue
+            for entry in fi.as_list()[:-1]:
+                args, cur = entry[:-1], entry[-1]
+                py = []
+                for a in args:
+                    if z3.is_string_value(a):
+                        py.append(ops._z3str(a))
+                    elif z3.is_int_value(a):
+                        py.append(a.as_long())
+                    else:
+                        py = None
+                        break
+                if py is None:
+                    continue
+                try:
+                    real = nat[d.name()](*py)
+                except Exception:  # noqa: BLE001
+                    real = None
+                if real is None:
+                    continue
+                if isinstance(real, bool):
+                    ok, tv = (z3.is_true(cur) == real), z3.BoolVal(real)
+                elif isinstance(real, int):
+                    ok, tv = (z3.is_int_value(cur) and cur.as_long() == real), z3.IntVal(real)
+                else:
+                    ok, tv = (z3.is_string_value(cur) and ops._z3str(cur) == real), z3.StringVal(real)
+                if not ok:
+                    facts.append(d(*args) == tv)
+                    if _ambiguous(d.name(), py):
+                        steering[0] = True
         if not facts:
             return "sat", m
         for f in facts:
             s.add(f)
         r = timed_check(s, timeout_s)
         if r == z3.unsat:
-            return "unsat", None
+            return ("unknown" if steering[0] else "unsat"), None
         if r != z3.sat:
             return "unknown", None
     return "unknown", None
@@ -705,7 +771,12 @@ def discharge_one(ob, timeout_s=10.0, use_cvc5=True):
         if r == z3.unsat:
             return {"verdict": "proved", "backend": "z3", "time": time.time() - t0}
         if r == z3.sat:
-            return {"verdict": "refuted", "backend": "z3", "time": time.time() - t0, "model": s.model()}
+            rr, m = refine_model(ob, s, timeout_s=min(5.0, timeout_s))
+            if rr == "sat":
+                return {"verdict": "refuted", "backend": "z3", "time": time.time() - t0, "model": m}
+            if rr == "unsat":
+                return {"verdict": "proved", "backend": "z3 + ground facts about int()/float()/lower() at the model's strings",
+                        "time": time.time() - t0}
     for K in (2, 3):
         m = bounded_refute(ob, timeout_s, K)
         if m is not None:
